@@ -259,6 +259,30 @@ theorem pinned_nonpositive_rate_panics :
       (postHlr pinnedFacts [] (.ok uidA) (.ok full)).1 (.getUser uidA 50)).2 = .panic .tokenBucket := by
   decide
 
+/-- the statement of `c18_refines` is **false** for the pinned facts: (a) and (b) each give a well-formed
+script whose concrete answers differ from the keyed-store specification -/
+theorem pinned_refines_false :
+    ¬ ∀ ops : List Op, (∀ op ∈ ops, op.WF) → (run pinnedFacts [] ops).2 = (Spec.run [] ops).2 := by
+  intro h
+  have h1 := h [.post (.ok uidA) (.ok ⟨uidB, some 3, none, none, none, none, none⟩), .get (.ok uidB)] (by
+    intro op hop
+    simp only [List.mem_cons, List.mem_nil_iff, or_false] at hop
+    rcases hop with rfl | rfl <;> simp [Op.WF, InRange, In32, In64])
+  revert h1
+  decide
+
+/-- the statement of `c18_no_panic` is **false** for the pinned facts (partial record; non-positive rate) -/
+theorem pinned_no_panic_false :
+    ¬ ∀ (ops : List Op), (∀ op ∈ ops, op.WF) → ∀ (op : Op), op.WF → ∀ p : Panic,
+      (step pinnedFacts (run pinnedFacts [] ops).1 op).2 ≠ .panic p := by
+  intro h
+  have h1 := h [.post (.ok uidA) (.ok onlyCap)] (by
+    intro op hop
+    simp only [List.mem_cons, List.mem_nil_iff, or_false] at hop
+    subst hop; simp [Op.WF, InRange, onlyCap, In32, In64]) (.auth uidA 0) trivial .indexOutOfRange
+  revert h1
+  decide
+
 end C18
 
 #print axioms C18.c18_refines
